@@ -66,19 +66,26 @@ ENSURE_ABS.stubs.pop("os.sep")
 
 
 def os_stat(ev, args, kwargs, node):
-    """os.stat: the entry's stat result, FileNotFoundError or NotADirectoryError (A-stat; other OSErrors are environment
-    faults, not request content)"""
+    """os.stat: the entry's stat result, FileNotFoundError, NotADirectoryError or ValueError (A-stat; other OSErrors are environment
+    faults, not request content).  Every attempt is recorded on the ghost `fs`: how many, the last path, and whether all
+    paths so far were inside the configured directory.  The configured directory itself exists (A-dir-exists)."""
     USED.add("A-stat")
     st = ev.st
-    k = st.choose([z3.BoolVal(True)] * 3, force_record=True)
-    if k == 1:
-        raise PyRaise("FileNotFoundError", None, getattr(node, "lineno", 0))
-    if k == 2:
-        raise PyRaise("NotADirectoryError", None, getattr(node, "lineno", 0))
     g = st.obj(st.ghost["fs"])
     g.fields["n_stat"] = VInt(g.fields["n_stat"].t + 1)
     g.fields["last"] = args[0]
-    return st.alloc(Obj("stat_result", {"st_mode": st.fresh(Int, "st_mode")}))
+    d = st.obj(ev.frame.lookup("self")).fields["directory"].t
+    inside = z3.Or(args[0].t == d, z3.PrefixOf(z3.Concat(d, z3.StringVal("/")), args[0].t))
+    g.fields["all_inside"] = VBool(z3.And(g.fields["all_inside"].t, inside))
+    k = st.choose([z3.BoolVal(True)] * 4, force_record=True)
+    if k in (1, 2, 3):
+        USED.add("A-dir-exists")
+        st.assume(args[0].t != d)
+        # (ValueError: a NUL byte in the path)
+        raise PyRaise(("FileNotFoundError", "NotADirectoryError", "ValueError")[k - 1], None, getattr(node, "lineno", 0))
+    return st.alloc(Obj("stat_result", {"st_mode": st.fresh(Int, "st_mode"), "st_size": st.fresh(Int, "st_size"),
+                                        "st_mtime": st.fresh(Opaque("Float"), "st_mtime"),
+                                        "st_ctime": st.fresh(Opaque("Float"), "st_ctime")}))
 
 
 os_stat.mods = ("fs",)
@@ -88,22 +95,28 @@ def s_isreg(ev, args, kwargs, node):
     return VBool(ufunc("S_ISREG", I, Bz)(args[0].t))
 
 
+FS_T = ObjT("FsGhost", n_stat=Int, last=Str, all_inside=Bool)
+STAT_T = ObjT("stat_result", st_mode=Int, st_size=Int, st_mtime=Opaque("Float"), st_ctime=Opaque("Float"))
+
 CHECK_FILE = Contract(
     id="check_path_is_file", file=SF, qualname="BaseFiles.check_path_is_file", props=["C07", "C12"],
-    params={"self": ObjT(SF + ":BaseFiles", directory=Str), "path": Opt(Str)},
-    ghosts={"fs": ObjT("FsGhost", n_stat=Int, last=Str)},
-    requires=["fs.n_stat == 0"],
-    ufuncs={"S_ISREG": ([Int], Bool)},
+    params={"self": ObjT(SF + ":BaseFiles", directory=Str), "path": Opt(Str)}, returns=Tup(Opt(STAT_T), Bool),
+    ghosts={"fs": FS_T},
+    defs=DEFS, ufuncs={"S_ISREG": ([Int], Bool)},
     stubs={"os.stat": os_stat, "stat.S_ISREG": s_isreg},
     ghost_modifies=["fs"],
     raises={},     # a missing entry or a path below a regular file is "not found", never an exception
     ensures={
-        "none_is_not_a_file": "implies(is_none(path), is_none(result[0]) and not result[1] and fs.n_stat == 0)",
-        "regular_iff_mode": "implies(not is_none(result[0]), result[1] == S_ISREG(result[0].st_mode) and fs.last == path)",
+        "none_is_not_a_file": "implies(is_none(path), is_none(result[0]) and not result[1] and fs.n_stat == old(fs.n_stat) and "
+                              "fs.all_inside == old(fs.all_inside))",
+        "one_stat_on_the_given_path": "implies(not is_none(path), fs.n_stat == old(fs.n_stat) + 1 and fs.last == path and "
+                                      "fs.all_inside == (old(fs.all_inside) and inside(self.directory, path)))",
+        "regular_iff_mode": "implies(not is_none(result[0]), result[1] == S_ISREG(result[0].st_mode))",
         "absent": "implies(is_none(result[0]), not result[1])",
+        "directory_exists": "implies(not is_none(path) and path == self.directory, not is_none(result[0]))",
     },
     canaries={"never_a_file": "not result[1]"},
-    assumptions=["A-stat"],
+    assumptions=["A-stat", "A-dir-exists"],
 )
 
 
@@ -130,6 +143,118 @@ def pages_ensure(file_, iface):
     )
 
 
+# --------------------------------------------------------------------------- the applications: Files / Pages __call__
+from contracts import c14 as _c14
+from contracts import c02 as _c02
+
+SV_T = ObjT("ServedGhost", n=Int, kind=Int, path=Str, n_404=Int, n_redirect=Int)
+
+
+def _served(ev, recv, args, kwargs, node):
+    """the response object is called with the server's arguments: recorded (what it then emits is C02 / C05 / C14)"""
+    st = ev.st
+    o = st.obj(recv)
+    g = st.obj(st.ghost["sv"])
+    g.fields["n"] = VInt(g.fields["n"].t + 1)
+    g.fields["kind"] = o.fields["kind"]
+    if "filepath" in o.fields:
+        g.fields["path"] = o.fields["filepath"]
+    return NONE
+
+
+_served.mods = ("sv",)
+
+
+def _handle_404(ev, args, kwargs, node):
+    g = ev.st.obj(ev.st.ghost["sv"])
+    g.fields["n_404"] = VInt(g.fields["n_404"].t + 1)
+    return NONE
+
+
+_handle_404.mods = ("sv",)
+
+
+def _redirect_stub(ev, args, kwargs, node):
+    g = ev.st.obj(ev.st.ghost["sv"])
+    g.fields["n_redirect"] = VInt(g.fields["n_redirect"].t + 1)
+    return VFunc("py", lambda ev2, a, k, n: NONE, "redirect-response")
+
+
+_redirect_stub.mods = ("sv",)
+
+
+def _url_stub(ev, args, kwargs, node):
+    return ev.st.alloc(Obj("URL", {"path": ev.st.fresh(Str, "url.path")}))
+
+
+def _url_replace(ev, recv, args, kwargs, node):
+    return ev.st.alloc(Obj("URL", {"path": kwargs.get("path", ev.st.obj(recv).fields["path"])}))
+
+
+_url_replace.mods = ()
+_url_replace.mutates_recv = False
+
+
+def _s_isdir(ev, args, kwargs, node):
+    return VBool(ufunc("S_ISDIR", I, Bz)(args[0].t))
+
+
+def mk_app_call(file_, iface, cls):
+    resp = file_.replace("staticfiles", "responses")
+    self_t = ObjT(file_ + ":" + cls, directory=Str, handle_404=Opt(TFunc(_handle_404, "handle_404")))
+    if iface == "wsgi":
+        params = {"self": self_t, "environ": Dict(HTTP_IF_NONE_MATCH=Maybe_(Str), HTTP_IF_MODIFIED_SINCE=Maybe_(Str), PATH_INFO=Maybe_(Str)),
+                  "start_response": Opaque("StartResponse")}
+    else:
+        params = {"self": self_t, "scope": Dict(path=Str, headers=List(Tup(Bytes, Bytes))), "receive": Opaque("Receive"),
+                  "send": Opaque("Send")}
+    ensures = {
+        # C07: whatever the request says, every path handed to os.stat - and therefore every file that can be served -
+        # is the configured directory or lies below it
+        "nothing_outside_is_touched": "fs.all_inside",
+        "serves_only_what_it_checked": "implies(sv.n == 1 and sv.kind == 200, sv.path == fs.last and inside(self.directory, sv.path))",
+        "one_outcome": "sv.n + sv.n_404 + sv.n_redirect == 1",
+        "stats": "fs.n_stat <= %d" % (1 if cls == "Files" else 2),
+    }
+    if cls == "Files":
+        ensures["lookup"] = "implies(sv.n == 1, fs.n_stat == 1 and fs.last == resolved_rp())"
+    inv = {}
+    if iface == "asgi":
+        inv = {1: ["fs.n_stat == 0 and fs.all_inside and sv.n == 0 and sv.n_404 == 0 and sv.n_redirect == 0"]}
+    return Contract(
+        id="%s.%s.__call__" % (iface, cls), file=file_, qualname=cls + ".__call__", props=["C07", "C12"],
+        params=params,
+        ghosts={"fs": FS_T, "sv": SV_T, "rp": Str, "fx": ObjT("FxGhost", n_set_headers=Int), "pieces": List(Str)},
+        requires=["self.directory != '' and not self.directory.endswith('/')", "fs.n_stat == 0 and fs.all_inside",
+                  "sv.n == 0 and sv.n_404 == 0 and sv.n_redirect == 0", "fx.n_set_headers == 0"] + (
+                  ["rp == scope['path']"] if iface == "asgi" else []),
+        defs=dict(DEFS, **{"resolved_rp()": "abspath(path_join(self.directory, join_segments(rp))) + ('/' if rp.endswith('/') else '')"}),
+        ufuncs=dict(UF, S_ISREG=([Int], Bool), S_ISDIR=([Int], Bool)),
+        stubs={"request_path": lambda ev, a, k, n: ev.st.ghost["rp"], "stat.S_ISDIR": _s_isdir, "URL": _url_stub,
+               "RedirectResponse": _redirect_stub},
+        stub_methods={(resp + ":Response", "__call__"): _served, (resp + ":FileResponse", "__call__"): _served,
+                      ("URL", "replace"): _url_replace},
+        ghost_modifies=["fs", "sv", "fx"], frame_check=False, invariants=inv,
+        raises={"HTTPException": "is_none(self.handle_404)"},
+        raises_ensures={"HTTPException": {"ensures": ["fs.all_inside", "sv.n == 0 and sv.n_redirect == 0"]}},
+        ensures=ensures,
+        canaries={"never_serves": "sv.n == 0"},
+        # replay: the model's request path on the real temp tree of the native layer (the model's directory name and
+        # stat outcomes are abstract; a refutation whose path behaves correctly there is reported as undecided)
+        model_to_inputs=(lambda m, _i=iface, _c=cls: {"kind": _c, "iface": _i,
+                                                      "path": "/" + str(m.get("rp", m.get("scope['path']", ""))).lstrip("/")}),
+        native=("c07", "replay"),
+        assumptions=["A-path-1", "A-path-2", "A-stat", "A-dir-exists"],
+        notes="ensure_absolute_path, check_path_is_file and file_response enter through their own contracts; calling the "
+              "response object is recorded on the ghost `sv` (its emissions are C02 / C05 / C14); handle_404 is an opaque app",
+    )
+
+
+APP_CALLS = [mk_app_call(f, i, c) for f, i in ((WS, "wsgi"), (AS, "asgi")) for c in ("Files", "Pages")]
+
+
 def register(reg):
     for c in (ENSURE_ABS, CHECK_FILE, pages_ensure(WS, "wsgi"), pages_ensure(AS, "asgi")):
+        reg.add(c)
+    for c in APP_CALLS:
         reg.add(c)
